@@ -454,6 +454,14 @@ class Gen:
             return {'k': 'value', 'p': path, 'text': self.segtext(seg_name, inv=self.inv(), fill=0.3)}
         idx, fref, reps = self.pick_field(seg_name, node, 0.8)
         r = rng.randrange(0, reps) if reps else 0
+        have = node.reps('fld', idx) if node is not None else []
+        tag = have[r].tag if r < len(have) else None
+        if tag and tag.get('datatype') and fref is not None:
+            # the repetition was built with an overridden datatype: a text that fits that datatype
+            st = T.datatype_struct(self.version, tag['datatype'])
+            if not st:
+                return {'k': 'value', 'p': path + [['fld', idx, r, self.sp()]], 'text': gen.valid_literal('ST', self.tok, rng)}
+            fref = ('sequence', st, tag['datatype'], None, None, -1)
         return {'k': 'value', 'p': path + [['fld', idx, r, self.sp()]], 'text': self.field_value(fref, self.inv())}
 
     def _fld_root(self):
@@ -556,7 +564,7 @@ class Gen:
         kind = rng.choice(['parent_kw', 'parent_kw', 'parent_attr', 'parent_attr', 'detach', 'elem', 'elem', 'bdt', 'bdt',
                            'bdt', 'hold', 'hold', 'readd', 'value_bdt', 'value_bdt', 'dt_assign', 'dt_assign'])
         if self.mixname == 'c09':      # C09 speaks of assignments, additions, deletions and copies only
-            kind = rng.choice(['bdt', 'bdt', 'parent_attr', 'elem', 'elem', 'regrab', 'hold'])
+            kind = rng.choice(['bdt', 'bdt', 'parent_attr', 'elem', 'elem', 'regrab', 'hold', 'hold'])
         elif rng.random() < 0.1:
             kind = 'regrab'
         if kind == 'regrab':
@@ -679,6 +687,11 @@ class Gen:
             v, ok = gen.leaf(dt, self.tok, rng, self.inv())
             return {'k': 'set', 'p': path, 'c': ['fld', i, 0, self.sp()], 'via': 'attr', 'v': {'bdt': [dt, v]}}
         # hold: keep a handle obtained by traversal, write through it later (maybe after the same child was added)
+        if reps and rng.random() < 0.6:
+            # ... preferably through a field that does not exist yet: only then is the handle a lazily
+            # created element that can go stale
+            idx, fref, reps = self.pick_field(seg_name, node, 0.0)
+            step = ['fld', idx, 0, 0]
         if self.kind == 'msg' and rng.random() < 0.4:
             # ... through a segment that does not exist yet either
             m = self.model(world)
@@ -720,6 +733,13 @@ class Gen:
             follow.append({'k': 'add', 'p': path, 'c': step, 'via': 'factory'})
             follow.append({'k': 'value', 'p': path + [['fld', idx, reps, 0]], 'text': self.field_value(fref), 'after_add': True})
         follow.append({'k': 'held_value', 'reg': reg, 'text': text, 'bad': 'stale_handle'})
+        if follow[0]['k'] == 'add' and reps == 0 and len(comps) > 1 and rng.random() < 0.6:
+            # ... and after the (maybe refused) write through the stale handle the field is deleted and
+            # another component written through the path: nothing of a refused write may come back
+            follow.append({'k': 'del', 'p': path, 'c': ['fld', idx, 0, 0], 'via': rng.choice(['item', 'attr'])})
+            c2, ce2 = rng.choice([c for c in comps if c[0] != cidx])
+            follow.append({'k': 'set', 'p': path + [['fld', idx, 0, 0]], 'c': ['cmp', c2, 0, self.sp()], 'via': 'attr',
+                           'v': {'text': gen.component_text(rng, self.version, ce2[1], self.ec, self.tok, 0.4, 0.0)}})
         self.pending.extend(follow)
         return {'k': 'hold', 'p': hpath, 'reg': reg}
 
